@@ -883,6 +883,12 @@ func (c *stepCheck) check() {
 		return
 	}
 
+	if c.final == nil && c.stopIssuedSeq != 0 && len(c.truth.Runs) == 0 && c.ar.proc.ExitCode != 0 {
+		// the stop reached the agent before it had set the run up: nothing was started, nothing recorded,
+		// and the process says so with a non-zero exit
+		bump(c.out, "stopped_before_the_run_was_set_up")
+		return
+	}
 	if c.final == nil {
 		c.viol(firstNonEmpty(c.prop, "C04"), "no-final-status", "missing", "agent exited (code %d, err %v) without a persisted status", c.ar.proc.ExitCode, c.ar.runErr)
 		return
